@@ -161,7 +161,7 @@ class CallMixin:
             return self.construct_ext(st, f.obj, args, kwargs, k, where)
         if w == "excclass":
             return k(st, VExc(f.obj, args, where))
-        if w == "ext":
+        if w in ("ext", "module"):
             return self.call_ext(st, f.obj, args, kwargs, k, where)
         if w == "bound_builtin":
             return self.call_builtin_method(st, f.extra, f.obj, args, kwargs, k, where)
@@ -501,6 +501,14 @@ class CallMixin:
     def parse_location(self, env: SpecEnv, loc: str):
         """-> list of (heap key pattern, obj term or None) """
         loc = loc.strip()
+        if " if " in loc:
+            loc, cond = loc.split(" if ", 1)
+            g = self.spec_bool(env, cond)
+            out = []
+            for it in self.parse_location(env, loc):
+                g2 = g if it[3] is None else And(g, it[3])
+                out.append((it[0], it[1], it[2], g2))
+            return out
         if loc.startswith("*"):
             cls, fld = loc[1:].rsplit(".", 1)
             return [("field*", cls, fld, None)]
